@@ -8,6 +8,14 @@ imports.  Observed per model file: `_pos_crossref_list` (in list order),
 `_pos_rule_dict` (in dict order, values numbered by the containment pre-order
 of the objects) and the containment tree with the objects' spans.
 
+Since W34 also: user classes (`classes=[...]`, instances falsy through
+`__bool__` / `__len__`, container-like, or all equal), a builtin model
+(`metamodel.builtin_models`) loaded from a string without / with a file name or
+from a file and referenced from the project, and the main model loaded from a
+string with `file_name=` (an editor buffer).  Every model's own `_tx_filename`
+is observed; the definition file of an entry is compared with the file name of
+the model the target object lives in.
+
 Lean side (Drivers/Positions.lean, op `tools`): `LinkLoc.run` on the same
 texts / reference spans / provider answers gives the cross-reference lists;
 `PosDict.posRuleDict` on the observed object trees gives the position maps.
@@ -16,8 +24,150 @@ Direct oracle: from the texts and the loaded objects alone (see `oracle`).
 """
 import os
 
+import tempfile
+
 from harness.core import Check, use_repo
 from harness.props import c28_lang as L
+
+# --- W34: configurations the property's quantifier covers but c28_lang.gen_project never produces -----------------
+# user classes (classes=[...]) whose instances may be falsy / all equal, string-loaded models with a file name
+# ("buffer"), and a builtin model (metamodel.builtin_models) loaded from a string without / with file name or a file.
+FLAVOURS = ["plain", "false", "len0", "len", "eq"]
+CLASSES = ["Model", "Import", "Package", "Item", "Ref", "Use", "Wrap", "Inner", "Core"]
+
+
+def mk_class(name, flavour):
+    """user class `name`; flavour: plain | false (__bool__ False) | len0 (__len__ 0) | len (container-like: number of
+    contained elements / targets) | eq (all instances equal, same hash)"""
+
+    def __init__(self, **kw):
+        for k, v in kw.items():
+            setattr(self, k, v)
+
+    ns = {"__init__": __init__}
+    if flavour == "false":
+        ns["__bool__"] = lambda self: False
+    elif flavour == "len0":
+        ns["__len__"] = lambda self: 0
+    elif flavour == "len":
+        def __len__(self):
+            for a in ("elems", "targets"):
+                try:
+                    v = object.__getattribute__(self, a)
+                except AttributeError:
+                    continue
+                return len(v) if isinstance(v, list) else 0
+            return 0
+        ns["__len__"] = __len__
+    elif flavour == "eq":
+        ns["__eq__"] = lambda self, other: type(other) is type(self)
+        ns["__hash__"] = lambda self: 7
+    return type(name, (), ns)
+
+
+def full_case(case):
+    """the case with the builtin model as one more (never imported) file, for rendering"""
+    b = case.get("builtin")
+    if not b:
+        return case
+    return dict(case, files=case["files"] + [{"name": L.fname(len(case["files"])), "imports": [], "elems": b["elems"]}])
+
+
+def render(case):
+    return L.render(full_case(case))
+
+
+def load_mode(case):
+    return "str" if case["str"] else (case.get("load") or "file")
+
+
+def file_label(case, fi):
+    """base name of `_tx_filename` of the model of file `fi` as the project is loaded (None: no file name)"""
+    if fi == len(case["files"]):
+        return None if case["builtin"]["how"] == "str" else L.fname(fi)
+    return None if case["str"] else L.fname(fi)
+
+
+def load_project(case, R):
+    """c28_lang.load_project with user classes, builtin models and named string loading.
+    Returns (models by file index | None, exception | None, log, tmpdir)."""
+    use_repo()
+    from textx import get_model, metamodel_from_str
+    from textx.scoping import ModelRepository, Postponed
+    from textx.scoping import providers as sp
+
+    kw = {}
+    if case.get("classes"):
+        kw["classes"] = [mk_class(n, fl) for n, fl in sorted(case["classes"].items())]
+    b = case.get("builtin")
+    repo = None
+    log = []
+    tmp = tempfile.mkdtemp(prefix="verif-c34-")
+    try:
+        if b:
+            repo = kw["builtin_models"] = ModelRepository()
+        mm = metamodel_from_str(L.GRAMMAR, textx_tools_support=True, **kw)
+        base = sp.PlainNameImportURI() if case["mode"] == "plain" else sp.FQNImportURI()
+        waits = {(L.fname(r["file"]), r["start"]): (r["id"], r["wait"]) for r in R.refs}
+        calls = {}
+        limit = 50 * (len(R.refs) + 2)
+        total = [0]
+
+        def wrapper(obj, attr, obj_ref):
+            total[0] += 1
+            if total[0] > limit:
+                raise L.NonTermination("scope provider called too often")
+            fn = get_model(obj)._tx_filename
+            key = (os.path.basename(fn) if fn else L.fname(0), obj_ref.position)
+            rid, wait = waits.get(key, (None, 0))
+            c = calls.get(key, 0)
+            calls[key] = c + 1
+            if wait == L.FOREVER or c < wait:
+                log.append([rid, "P"])
+                return Postponed()
+            try:
+                res = base(obj, attr, obj_ref)
+            except Exception:
+                log.append([rid, "X"])
+                raise
+            log.append([rid, "R" if res is not None else "U"])
+            return res
+
+        mm.register_scope_providers({"*.*": base, "Ref.target": wrapper, "Use.targets": wrapper})
+        nb = len(case["files"])
+        for i, t in enumerate(R.texts):
+            if i == nb and b["how"] != "file":
+                continue
+            if case["str"] and i < nb:
+                continue
+            with open(os.path.join(tmp, L.fname(i)), "w", encoding="utf-8", newline="") as fh:
+                fh.write(t)
+        models = {}
+        if b:
+            path = os.path.join(tmp, L.fname(nb))
+            if b["how"] == "str":
+                bm = mm.model_from_str(R.texts[nb])
+            elif b["how"] == "buffer":
+                bm = mm.model_from_str(R.texts[nb], file_name=path)
+            else:
+                bm = mm.model_from_file(path)
+            repo.add_model(bm)
+            models[nb] = bm
+        how = load_mode(case)
+        path = os.path.join(tmp, L.fname(0))
+        if how == "str":
+            model = mm.model_from_str(R.texts[0])
+        elif how == "buffer":
+            # an editor buffer: the text, with the name of the file it belongs to
+            model = mm.model_from_str(R.texts[0], file_name=path)
+        else:
+            model = mm.model_from_file(path)
+        for fi, m in L.models_by_file(case, model).items():
+            if fi < nb:
+                models[fi] = m
+        return models, None, log, tmp
+    except Exception as e:  # everything the code under test raises is an observation
+        return None, e, log, tmp
 
 
 class Prop(Check):
@@ -36,12 +186,18 @@ class Prop(Check):
     PROCS_THOROUGH = 4  # builders share the machine; raise together with THOROUGH_CASES on a free one
     RULE = ("valid projects of 1..4 files with plain / qualified references (optionally with blanks around the dots), "
             "reference lists, random postponement schedules (0..3 rounds), nested objects sharing start or span, "
-            "packages, imports; non-trivial = some reference is resolved after a textually later one of its file, or a "
+            "packages, imports; user classes with falsy / container-like / all-equal instances, a builtin model "
+            "(string without or with file name, file) as reference target, main model from file / string / string with "
+            "file name; non-trivial = a reference to a falsy object, or to an object of another model whose file name "
+            "is None, or some reference is resolved after a textually later one of its file, or a "
             "reference text is longer than its target's name, or two nested objects have the same span")
     MODELLED = ("hand-modelled: model.py resolve_one_step RefRulePosition collection inside the resolution loop "
                 "(LinkLoc.run), process_node pos_rule_dict collection and the final sort (PosDict.posRuleDict); tie X op "
                 "tools: lists from texts / reference spans / schedules, maps from the observed object trees; not "
-                "exhibited: the parser (spans of objects and reference nodes are inputs)")
+                "exhibited: the parser (spans of objects and reference nodes are inputs); the truth value / equality of "
+                "the target objects and the way a model got its file name are not model inputs: the model lists every "
+                "answer that is not Postponed with the file name of the target's model, so any dependence of the code on "
+                "them is a disagreement")
     ASSUMPTIONS = [
         "object spans form a parse geometry - used only for the 'every object with that span contains the chosen one' "
         "clause: C34_dict_innermost wants `wf` (children inside the parent, in text order, non-empty), "
@@ -57,29 +213,88 @@ class Prop(Check):
             case = L.gen_project(r, max_elems=7)
             L.compress_waits(case)
             case["tools"] = True
+            self.extend(r.fork("w34"), case)
             yield case
+
+    def extend(self, x, case):
+        """W34: loading configuration, user classes, builtin model (see the module header)"""
+        if not case["str"] and x.chance(0.3):
+            case["load"] = "buffer"
+        if x.chance(0.5):
+            cl = {}
+            for cn in CLASSES:
+                if x.chance(0.6 if cn == "Item" else 0.3):
+                    cl[cn] = x.choice(FLAVOURS)
+            if cl:
+                case["classes"] = cl
+        if x.chance(0.4):
+            cnt = [0, 0, 0]
+
+            def elems(depth, n):
+                out = []
+                for _ in range(n):
+                    k = x.weighted([("item", 5), ("pkg", 3 if depth < 2 else 0), ("wrap", 1)])
+                    if k == "item" or (depth == 0 and not cnt[0] and _ == n - 1):
+                        cnt[0] += 1
+                        out.append({"k": "item", "name": f"b{cnt[0]}"})
+                    elif k == "pkg":
+                        cnt[1] += 1
+                        out.append({"k": "pkg", "name": f"q{cnt[1]}", "elems": elems(depth + 1, x.randint(0 if case["mode"] == "plain" else 1, 2))})
+                    else:
+                        cnt[2] += 1
+                        out.append({"k": "wrap", "name": f"d{cnt[2]}", "flag": "f" if x.chance(0.5) else None})
+                return out
+
+            be = elems(0, x.randint(1, 3))
+            names = []
+
+            def items_of(es):
+                for e in es:
+                    if e["k"] == "item":
+                        names.append(e["name"])
+                    elif e["k"] == "pkg":
+                        items_of(e["elems"])
+
+            items_of(be)
+            how = x.weighted([("str", 3), ("buffer", 1), ("file", 1)])
+            if case["str"] and how == "file":
+                how = "buffer"  # the texts of a string project may contain '\r\n', which reading a file translates
+            case["builtin"] = {"how": how, "elems": be}
+            refs = [r for _, r in L.all_refs(case)]
+            hit = False
+            for r in refs:
+                if x.chance(0.4):
+                    r["target"] = x.choice(names)
+                    hit = True
+            if not hit and refs:
+                x.choice(refs)["target"] = x.choice(names)
 
     # ----------------------------------------------------------------- impl
     def impl(self, case):
-        R = L.render(case)
-        model, exc, log, tmp, mm = L.load_project(case, R, True)
+        R = render(case)
+        models, exc, log, tmp = load_project(case, R)
         try:
             if exc is not None:
                 return {"outcome": "err", "type": type(exc).__name__, "msg": str(exc)[:300], "log": log}
-            models = L.models_by_file(case, model)
             files = []
             items = {}
-            for fi in range(len(case["files"])):
+            falsy = []
+            for fi in range(len(R.texts)):
                 m = models.get(fi)
                 if m is None:
                     files.append(None)
                     continue
-                files.append(self.observe_model(fi, m, items))
-            return {"outcome": "ok", "files": files, "items": items, "log": log}
+                f = self.observe_model(fi, m, items, falsy)
+                fn = m._tx_filename
+                f["fname"] = None if fn is None else os.path.basename(str(fn))
+                files.append(f)
+            return {"outcome": "ok", "files": files, "items": items, "falsy": sorted(falsy), "log": log}
+        except Exception as e:  # user classes: observing must not depend on the objects' own protocol
+            return {"outcome": "err", "type": "observe:" + type(e).__name__, "msg": str(e)[:300], "log": log}
         finally:
             L.cleanup(tmp)
 
-    def observe_model(self, fi, m, items):
+    def observe_model(self, fi, m, items, falsy):
         ids = {}
 
         def kids_of(o):
@@ -88,7 +303,7 @@ class Prop(Check):
                 if not a.cont:
                     continue
                 v = getattr(o, name, None)
-                for x in (v if isinstance(v, list) else [v]):
+                for x in (v if type(v) is list else [v]):
                     if hasattr(x, "_tx_position") and hasattr(type(x), "_tx_attrs"):
                         ks.append(x)
             ks.sort(key=lambda x: x._tx_position)
@@ -99,6 +314,8 @@ class Prop(Check):
             ids[id(o)] = n
             if type(o).__name__ == "Item":
                 items.setdefault(o.name, []).append([fi, o._tx_position, o._tx_position_end])
+                if not o:
+                    falsy.append(o.name)
             return {"id": n, "cls": type(o).__name__, "s": o._tx_position, "e": o._tx_position_end,
                     "kids": [build(k) for k in kids_of(o)]}
 
@@ -118,31 +335,34 @@ class Prop(Check):
     def model_req(self, case, obs):
         if obs["outcome"] != "ok" or any(f is None for f in obs["files"]):
             return None
-        R = L.render(case)
+        R = render(case)
         files, _ = L.lean_files(case, R)
 
         def final(r):
             fi, s, e = R.items[r["target"]][0]
-            return ["R", None if case["str"] else L.fname(fi), s, e]
+            return ["R", file_label(case, fi), s, e]
 
         def strip(t):
             return {"id": t["id"], "s": t["s"], "e": t["e"], "kids": [strip(k) for k in t["kids"]]}
 
         order = L.file_order(case)
         return {"op": "tools", "files": files, "ans": L.answer_table(case, R, final),
-                "trees": [strip(obs["files"][fi]["tree"]) for fi in order]}
+                "trees": [strip(obs["files"][fi]["tree"]) for fi in order + list(range(len(case["files"]), len(obs["files"])))]}
 
     def compare(self, case, obs, out):
         if "ok" not in out or "dicts" not in out:
             return f"model did not load the project: {str(out)[:200]}"
-        R = L.render(case)
+        R = render(case)
         order = L.file_order(case)
         byid = {(r["file"], r["start"]): r["id"] for r in R.refs}
-        for k, fi in enumerate(order):
+        nmain = len(order)
+        # the builtin model (if any) is not part of the resolution loop of the project: its tree / map only
+        for k, fi in enumerate(order + list(range(len(case["files"]), len(obs["files"])))):
             f = obs["files"][fi]
             got = [[byid.get((fi, e[1]), -1)] + e[1:] for e in f["refs"]]
-            if got != out["ok"][k]:
-                return f"{L.fname(fi)}: _pos_crossref_list (ref id, start, end, def file, def start, def end) = {got}, model {out['ok'][k]}"
+            if got != (out["ok"][k] if k < nmain else []):
+                return (f"{L.fname(fi)}: _pos_crossref_list (ref id, start, end, def file, def start, def end) = {got}, "
+                        f"model {out['ok'][k] if k < nmain else []}")
             if f["dict"] != out["dicts"][k]:
                 return f"{L.fname(fi)}: _pos_rule_dict items (start, end, object) = {f['dict']}, model {out['dicts'][k]}"
             # the hypothesis of C34_dict_innermost_geo, evaluated by the model on the observed object tree
@@ -155,10 +375,12 @@ class Prop(Check):
     def oracle(self, case, obs):
         if obs["outcome"] != "ok":
             return f"loading a valid project failed: {obs.get('type')} {obs.get('msg')}"
-        R = L.render(case)
+        R = render(case)
         for fi, f in enumerate(obs["files"]):
             if f is None:
                 return f"{L.fname(fi)} was not loaded"
+            if f["fname"] != file_label(case, fi):
+                return f"{L.fname(fi)}: the model's _tx_filename is {f['fname']}, loaded as {file_label(case, fi)}"
             if not f["has_list"] or not f["has_dict"]:
                 return f"{L.fname(fi)}: model lacks _pos_crossref_list / _pos_rule_dict"
             # --- references: each once, ordered by start, exact spans, definition of the target
@@ -178,7 +400,9 @@ class Prop(Check):
                 if not tgt or len(tgt) != 1:
                     return f"target {r['target']} not found once among the loaded objects"
                 tfi, ts, te = tgt[0]
-                wf = None if case["str"] else L.fname(tfi)
+                if (tfi, ts, te) != tuple(R.items[r["target"]][0]):
+                    return f"target {r['target']} loaded at {(tfi, ts, te)}, written at {R.items[r['target']][0]}"
+                wf = obs["files"][tfi]["fname"]  # the file name of the model the target object lives in
                 if (e[3], e[4], e[5]) != (wf, ts, te):
                     return (f"{L.fname(fi)}: reference at {r['start']} to {r['target']}: definition "
                             f"(file, start, end) = {(e[3], e[4], e[5])}, target object is at {(wf, ts, te)}")
@@ -221,7 +445,9 @@ class Prop(Check):
     def nontrivial(self, case, obs):
         if obs.get("outcome") != "ok":
             return False
-        R = L.render(case)
+        R = render(case)
+        if self.w34_dims(case, obs, R):
+            return True
         # resolved after a textually later reference of the same file
         byid = {r["id"]: r for r in R.refs}
         seen = {}
@@ -239,12 +465,38 @@ class Prop(Check):
                 return True
         return False
 
+    def w34_dims(self, case, obs, R):
+        """which of the W34 configurations a loaded case really exercises"""
+        dims = set()
+        falsy = set(obs.get("falsy") or [])
+        nb = len(case["files"])
+        for r in R.refs:
+            if r["target"] in falsy:
+                dims.add("reference_to_falsy_object")
+            tfi = R.items[r["target"]][0][0]
+            if tfi != r["file"]:
+                a, b = file_label(case, tfi), file_label(case, r["file"])
+                if a is None and b is not None:
+                    dims.add("target_in_nameless_model_referred_from_named_model")
+                elif a is not None and b is None:
+                    dims.add("target_in_named_model_referred_from_nameless_model")
+                elif a is None and b is None:
+                    dims.add("target_in_other_nameless_model")
+                if tfi == nb:
+                    dims.add("target_in_builtin_model")
+        if load_mode(case) == "buffer":
+            dims.add("string_loaded_with_file_name")
+        if any(fl == "eq" for fl in (case.get("classes") or {}).values()):
+            dims.add("user_class_all_equal")
+        return dims
+
     def count_nodes(self, t):
         return 1 + sum(self.count_nodes(k) for k in t["kids"])
 
     def sample_view(self, case, obs):
-        R = L.render(case)
-        v = {"mode": case["mode"], "str": case["str"], "texts": R.texts}
+        R = render(case)
+        v = {"mode": case["mode"], "str": case["str"], "load": load_mode(case), "classes": case.get("classes"),
+             "builtin": (case.get("builtin") or {}).get("how"), "texts": R.texts}
         if obs.get("outcome") == "ok":
             v["impl"] = [{"refs": f["refs"], "dict": f["dict"]} for f in obs["files"] if f]
         else:
@@ -253,10 +505,13 @@ class Prop(Check):
 
     def extra_evidence(self, cases, obs, model_outs):
         late = qual = shared = multi = 0
+        w = {}
         for c, o in zip(cases, obs):
             if not isinstance(o, dict) or o.get("outcome") != "ok":
                 continue
-            R = L.render(c)
+            R = render(c)
+            for d in self.w34_dims(c, o, R):
+                w[d] = w.get(d, 0) + 1
             multi += len(c["files"]) > 1
             qual += any(r["end"] - r["start"] != len(r["target"]) for r in R.refs)
             shared += any(f and len({(s, e) for s, e, _ in f["dict"]}) < self.count_nodes(f["tree"]) for f in o["files"])
@@ -271,13 +526,41 @@ class Prop(Check):
                     seen[r["file"]] = max(seen.get(r["file"], -1), r["start"])
             late += hit
         return {"distribution": {"multi_file": multi, "qualified_or_spaced_reference": qual,
-                                 "nested_objects_sharing_a_span": shared, "resolved_out_of_text_order": late}}
+                                 "nested_objects_sharing_a_span": shared, "resolved_out_of_text_order": late,
+                                 **{k: w[k] for k in sorted(w)}}}
 
     # --------------------------------------------------------------- shrink
     def shrink(self, case):
         from harness.props.c28 import Prop as C28
 
-        yield from C28().shrink(case)
+        import copy
+
+        if case.get("load"):
+            c = copy.deepcopy(case)
+            del c["load"]
+            yield c
+        for cn in sorted(case.get("classes") or {}):
+            c = copy.deepcopy(case)
+            del c["classes"][cn]
+            if not c["classes"]:
+                del c["classes"]
+            yield c
+        b = case.get("builtin")
+        if b:
+            needed = {r["target"] for _, r in L.all_refs(case)}
+            if not any(n.startswith("b") for n in needed):
+                c = copy.deepcopy(case)
+                del c["builtin"]
+                yield c
+            for i, e in enumerate(b["elems"]):
+                if e["k"] == "wrap" or (e["k"] == "item" and e["name"] not in needed):
+                    c = copy.deepcopy(case)
+                    del c["builtin"]["elems"][i]
+                    if c["builtin"]["elems"]:
+                        yield c
+        for c in C28().shrink(case):
+            L.compress_waits(c)  # stay among the valid projects: every round resolves something
+            yield c
 
     def extra_search(self, rng, tier, broken):
         return list(self.gen(rng, 1500, tier))
